@@ -682,6 +682,11 @@ def ob_parse_native(ob, toks):
     shape = getattr(ob, "ret_shape", None) or "Duration"
     if shape == "unit:&Duration":
         return UNIT, [dur_val(int(toks[0]), int(toks[1]))]
+    if shape == "unit:&Epoch":
+        return UNIT, [parse_shape("Epoch", toks)]
+    if shape == "ts_next":
+        v = parse_shape("ts_next", toks)
+        return v.fields[0], [Agg("timeseries::TimeSeries", (None, None, None, v.fields[1], None))]
     return parse_shape(shape, toks), getattr(ob, "native_refs", lambda toks: [])(toks)
 
 
@@ -700,6 +705,13 @@ def parse_shape(shape, toks):
         return EnumV("Option<Ordering>", 1, (EnumV("Ordering", int(toks[1]), (), None),), "Some") if toks[0] == "Some" else EnumV("Option", 0, (), "None")
     if shape == "Result<i64>":
         return EnumV("Result", 0, (I("i64", toks[1]),), "Ok") if toks[0] == "Ok" else EnumV("Result", 1, (Opaque("e"),), "Err")
+    if shape == "Result<u64>":
+        return EnumV("Result", 0, (I("u64", toks[1]),), "Ok") if toks[0] == "Ok" else EnumV("Result", 1, (Opaque("e"),), "Err")
+    if shape == "TimeSeries":
+        # c n ts  dc dn  pc pn  cur K incl B
+        ep = Agg("epoch::Epoch", (dur_val(int(toks[0]), int(toks[1])), EnumV("TimeScale", int(toks[2]), (), None)))
+        return Agg("timeseries::TimeSeries", (ep, dur_val(int(toks[3]), int(toks[4])), dur_val(int(toks[5]), int(toks[6])),
+                                              I("i64", toks[8]), BoolV(toks[10] == "1")))
     if shape == "Epoch":
         return Agg("epoch::Epoch", (dur_val(int(toks[0]), int(toks[1])), EnumV("TimeScale", int(toks[2]), (), None)))
     if shape == "(u32,u64)":
